@@ -31,26 +31,7 @@ PID = "C17"
 TRANSLATORS = ["T-solvelow"]
 
 # Genuine defects of halmos exhibited by this check (failing schedules on the real classes).
-KNOWN = [
-    {
-        "id": "F5",
-        "property": "C17",
-        "what": "PopenExecutor.submit tests _shutdown before taking _lock (and _join snapshots _futures without the lock): a job whose flag test preceded the shutdown request is registered and started after shutdown() has returned; its solver process runs on",
-        "match": {"cause": "flag-test-before-lock"},
-    },
-    {
-        "id": "F15",
-        "property": "C17",
-        "what": "PopenExecutor.shutdown(wait=True): _join calls future.result(), which re-raises the future's _exception (TimeoutExpired, any Popen/communicate failure); only CancelledError is suppressed, so shutdown() (and `with PopenExecutor()`) terminates with a job's exception and does not wait for the remaining jobs, whose solver processes keep running",
-        "match": {"cause": "join-reraises-job-exception"},
-    },
-    {
-        "id": "F6",
-        "property": "C17",
-        "what": "PopenFuture.cancel() is a no-op while self.process is None: a worker thread that has not reached Popen yet survives shutdown(wait=False) and spawns its solver after shutdown has returned",
-        "match": {"cause": "cancel-before-popen"},
-    },
-]
+KNOWN = common.known_for("C17")  # entries live in /verif/known_findings.json
 
 PARTIAL = (
     "real OS scheduling, signal delivery, pipe/child-process behaviour and CPython's threading/concurrent.futures internals "
